@@ -1,4 +1,4 @@
 package loadbalancer
 
-// verifProbeTarget: under the executor performHealthCheck is replaced by verifStubProbe; the address is never dialled.
+// verifProbeTarget: under the executor (*http.Client).Do is replaced by verifClientDo; the address is never dialled.
 func verifProbeTarget() string { return "127.0.0.1:1" }
